@@ -125,41 +125,64 @@ def _entry_at(fa, value, at, fields):
     return {f: A.norm(v) for f, v in ef.items()}
 
 
-def _parent_reads(fa, MP):
+def _facts(fa, lits, subject):
+    """(is `subject` the stored form?, attributes it is known to have) as stated by the live literals of a path;
+    a literal about a local is read through the local's value (`idx = getattr(p, 'a', None)` ... `idx is None`)."""
+    inst, has = None, set()
+    for l in lits:
+        if not l.live:
+            continue
+        d = PM.duck_atom(l.atom, subject)
+        if d is None:
+            try:
+                d = PM.duck_atom(PM._strip_casts(fa.expand(l.atom, l.at)), subject)
+            except Exception:  # noqa
+                d = None
+        if d and d[0] == "isinstance" and "PicklePartition" in d[1]:
+            inst = (d[2] == l.apos)
+        if d and d[0] == "has" and d[2] == l.apos:
+            has.add(d[1])
+    return inst, has
+
+
+def _parent_reads(fa, MP, use=None):
     """Attribute reads off the merge parent (or a cast / alias of it) in store(), by the branch they sit in:
-    -> (stored-form reads, duck-typed reads, attributes the duck-typed reads are guarded by)
-    where the branch is read off the literals of the paths reaching the read."""
+    -> (stored-form reads, duck-typed reads, attributes a duck-typed parent is known to have where it is used)
+    where the branch is read off the literals of the paths reaching the read, and the place of use is the CFG
+    node `use` (the head of the loop over the parent's entries; without it, the reads themselves)."""
     stored, duck, tested = set(), set(), None
     for x in A.walk_body(fa.node):
-        if not (isinstance(x, ast.Attribute) and isinstance(x.ctx, ast.Load) and isinstance(x.value, ast.Name)):
+        attr = None
+        if isinstance(x, ast.Attribute) and isinstance(x.ctx, ast.Load) and isinstance(x.value, ast.Name):
+            subj, attr = x.value, x.attr
+        elif isinstance(x, ast.Call) and isinstance(x.func, ast.Name) and x.func.id == "getattr" and len(x.args) in (2, 3) and isinstance(x.args[0], ast.Name) \
+                and A.const_str(x.args[1]):
+            subj, attr = x.args[0], A.const_str(x.args[1])
+        if attr is None:
             continue
         ids = fa.nodes(x)
         if not ids:
             continue
-        if x.value.id != MP and fa.xnorm(x.value, ids[0]) != MP:
+        if isinstance(x, ast.Call) and fa.cfg.node(ids[0]).kind == "test":
+            continue  # a test, not a read
+        if subj.id != MP and fa.xnorm(subj, ids[0]) != MP:
             continue
         paths = PM.walk(fa, ids)
         if not paths:
             continue
-        inst = []
-        for (_t, lits, _tr) in paths:
-            v = None
-            for l in lits:
-                d = PM.duck_atom(l.atom, MP) if l.live else None
-                if d and d[0] == "isinstance" and "PicklePartition" in d[1]:
-                    v = (d[2] == l.apos)
-            inst.append(v)
-        if all(v is True for v in inst):
-            stored.add(x.attr)
+        facts = [_facts(fa, lits, MP) for (_t, lits, _tr) in paths]
+        if all(i is True for (i, _h) in facts):
+            stored.add(attr)
             continue
-        duck.add(x.attr)
-        for (_t, lits, _tr) in paths:
-            has = set()
-            for l in lits:
-                d = PM.duck_atom(l.atom, MP) if l.live else None
-                if d and d[0] == "has" and d[2] == l.apos:
-                    has.add(d[1])
-            tested = has if tested is None else (tested & has)
+        duck.add(attr)
+        if use is None:
+            for (_i, h) in facts:
+                tested = h if tested is None else (tested & h)
+    if use is not None:
+        for (_t, lits, _tr) in PM.walk(fa, [use]):
+            (i, h) = _facts(fa, lits, MP)
+            if i is False:
+                tested = h if tested is None else (tested & h)
     return stored, duck, (tested or set())
 
 
@@ -173,7 +196,7 @@ def check_protocol(ck, R):
     writes = PM.store_writes_on_obj(fa)
     remember = [(a, s, g) for (a, s, g) in writes if g is not None and PM.duck_attrs(g.test, "obj")]
     # the reads off a duck-typed parent, and what they are guarded by
-    stored_reads, duck_reads, tested = _parent_reads(fa, MP)
+    stored_reads, duck_reads, tested = _parent_reads(fa, MP, ro["ploops"][0].id if len(ro["ploops"]) == 1 else None)
     parent_ifs = [i for i in fa.stmts(ast.If) if ("hasattr(%s" % MP) in A.norm(i.test) or ("getattr(%s" % MP) in A.norm(i.test)]
     ok_shape = bool(remember) and bool(duck_reads) and bool(tested)
     ck.ob(R, fa.key(None, "merge-parent-protocol"), ok_shape, "store() has a remember-branch and a duck-typed parent branch" if ok_shape else
@@ -366,6 +389,8 @@ def check_overlay(ck, R):
                 continue  # an empty default: the body is not entered on this path
             xi = fa.xnorm(di[0], di[1]) if di and di[0] is not None else ""
             xd = fa.xnorm(dd[0], dd[1]) if dd and dd[0] is not None else ""
+            ga = re.compile(r"getattr\(%s, '(\w+)'(, None)?\)" % re.escape(MP))
+            xi, xd = ga.sub(MP + r".\1", xi), ga.sub(MP + r".\1", xd)
             mi, md = re.fullmatch(re.escape(MP) + r"\.(\w+)", xi), re.fullmatch(re.escape(MP) + r"\.(\w+)", xd)
             if not (mi and md and (mi.group(1), md.group(1)) in pairs):
                 okr = False
